@@ -81,7 +81,7 @@ def units(tier):
 
 # legal but unusual destinations (shared with C12): destinations that compare equal, a destination that
 # removes itself or registers another one while it is being called
-C08_SCENARIOS = ["equal-destinations-one-call", "equal-destinations-back-to-back",
+C08_SCENARIOS = ["equal-destinations-one-call", "equal-destinations-back-to-back", "destination-fails-during-backlog",
                  "destination-removes-itself-while-live", "destination-registers-another-while-called"]
 
 
